@@ -3,6 +3,8 @@ import QuiverModel.Core.Sys.Basic
 Projection ("frame") lemmas for the primitive state updates of M-Sys, and small list/map facts.
 -/
 namespace QM.Sys
+set_option linter.unusedSectionVars false
+variable [Cfg]
 
 theorem upd_apply {α : Type} (f : Nat → α) (i j : Nat) (v : α) : upd f i v j = if j = i then v else f j := rfl
 
@@ -13,6 +15,59 @@ theorem upd_apply {α : Type} (f : Nat → α) (i j : Nat) (v : α) : upd f i v 
   funext j; simp only [upd_apply]; split <;> rfl
 
 /-! ### Sys primitives -/
+
+theorem noteExit_eq (s : Sys) (i : Wid) (cur : Pid) (x : Proc) :
+    s.noteExit i cur x = s ∨ s.noteExit i cur x = s.pushEvt i (.exited cur) := by
+  unfold Sys.noteExit; split
+  · exact Or.inr rfl
+  · exact Or.inl rfl
+
+@[simp] theorem noteExit_wk (s : Sys) (i : Wid) (cur : Pid) (x : Proc) : (s.noteExit i cur x).wk = s.wk := by
+  unfold Sys.noteExit; split <;> rfl
+@[simp] theorem noteExit_cmdQ (s : Sys) (i : Wid) (cur : Pid) (x : Proc) : (s.noteExit i cur x).cmdQ = s.cmdQ := by
+  unfold Sys.noteExit; split <;> rfl
+@[simp] theorem noteExit_env (s : Sys) (i : Wid) (cur : Pid) (x : Proc) : (s.noteExit i cur x).env = s.env := by
+  unfold Sys.noteExit; split <;> rfl
+@[simp] theorem noteExit_prog (s : Sys) (i : Wid) (cur : Pid) (x : Proc) : (s.noteExit i cur x).prog = s.prog := by
+  unfold Sys.noteExit; split <;> rfl
+@[simp] theorem noteExit_n (s : Sys) (i : Wid) (cur : Pid) (x : Proc) : (s.noteExit i cur x).n = s.n := by
+  unfold Sys.noteExit; split <;> rfl
+@[simp] theorem noteExit_now (s : Sys) (i : Wid) (cur : Pid) (x : Proc) : (s.noteExit i cur x).now = s.now := by
+  unfold Sys.noteExit; split <;> rfl
+@[simp] theorem noteExit_fault (s : Sys) (i : Wid) (cur : Pid) (x : Proc) : (s.noteExit i cur x).fault = s.fault := by
+  unfold Sys.noteExit; split <;> rfl
+@[simp] theorem noteExit_sent (s : Sys) (i : Wid) (cur : Pid) (x : Proc) : (s.noteExit i cur x).sent = s.sent := by
+  unfold Sys.noteExit; split <;> rfl
+@[simp] theorem noteExit_appended (s : Sys) (i : Wid) (cur : Pid) (x : Proc) : (s.noteExit i cur x).appended = s.appended := by
+  unfold Sys.noteExit; split <;> rfl
+@[simp] theorem noteExit_dropped (s : Sys) (i : Wid) (cur : Pid) (x : Proc) : (s.noteExit i cur x).dropped = s.dropped := by
+  unfold Sys.noteExit; split <;> rfl
+@[simp] theorem noteExit_spawned (s : Sys) (i : Wid) (cur : Pid) (x : Proc) : (s.noteExit i cur x).spawned = s.spawned := by
+  unfold Sys.noteExit; split <;> rfl
+@[simp] theorem noteExit_spawnNotified (s : Sys) (i : Wid) (cur : Pid) (x : Proc) :
+    (s.noteExit i cur x).spawnNotified = s.spawnNotified := by
+  unfold Sys.noteExit; split <;> rfl
+@[simp] theorem noteExit_reported (s : Sys) (i : Wid) (cur : Pid) (x : Proc) : (s.noteExit i cur x).reported = s.reported := by
+  unfold Sys.noteExit; split <;> rfl
+@[simp] theorem noteExit_learned (s : Sys) (i : Wid) (cur : Pid) (x : Proc) : (s.noteExit i cur x).learned = s.learned := by
+  unfold Sys.noteExit; split <;> rfl
+
+theorem mem_noteExit_evtQ {s : Sys} {w : Wid} {e : Evt} (i : Wid) (cur : Pid) (x : Proc) (h : e ∈ s.evtQ w) :
+    e ∈ (s.noteExit i cur x).evtQ w := by
+  unfold Sys.noteExit; split
+  · show e ∈ upd s.evtQ i (s.evtQ i ++ [Evt.exited cur]) w
+    unfold upd; split
+    · rename_i hw; subst hw; exact List.mem_append_left _ h
+    · exact h
+  · exact h
+
+/-- the event queues after `noteExit`: unchanged, or the ProcessExited of `cur` appended to worker `i`'s -/
+theorem noteExit_evtQ (s : Sys) (i : Wid) (cur : Pid) (x : Proc) :
+    (s.noteExit i cur x).evtQ = s.evtQ ∨ (s.noteExit i cur x).evtQ = upd s.evtQ i (s.evtQ i ++ [.exited cur]) := by
+  unfold Sys.noteExit; split
+  · exact Or.inr rfl
+  · exact Or.inl rfl
+
 
 @[simp] theorem pushCmd_env (s : Sys) (w c) : (s.pushCmd w c).env = s.env := rfl
 @[simp] theorem pushCmd_wk (s : Sys) (w c) : (s.pushCmd w c).wk = s.wk := rfl
